@@ -12,7 +12,10 @@ class StackFrame:
         self.return_addr = None
 
     def get_variable(self, identifier):
-        for place in (self.constants, self.vars, self.params, self.globals):
+        # The parameters of a routine become its variables (self.vars) when it is
+        # entered. Until then, while the arguments of the call are being
+        # evaluated, they must not be visible.
+        for place in (self.constants, self.vars, self.globals):
             if identifier in place:
                 return place[identifier]
         return None
